@@ -438,3 +438,117 @@ Proof.
   unfold normal_valid, gamma_valid, gpareto_valid, gpareto_support, gev_support, powerlaw_valid, beta_valid.
   repeat split; try lra.
 Qed.
+
+(* ---- round 4: mixtures (generic.Mixture + scalar / vector wrappers), multivariate skew normal, inverse Wishart and
+   normal-inverse-Wishart.  [rep e s]: e is ln s in the extended reals (-Inf for s = 0).  iw_formula / niw_formula
+   state what the code computes (element-wise product under the trace: F-C14-IW-TRACE); iw_trace_diagonal /
+   iw_formula_refuted say when that is, and that it is not in general, the textbook trace. *)
+From ADV Require Import C14.MixModel C14.SkewModel C14.IWModel.
+From ADV Require C14.ProofsMix C14.ProofsSkew C14.ProofsIW.
+Import ProofsMix (rep, sumR, dotp, mixture_pdf, sel).
+Import ProofsSkew (Phi, skew_pdf, skew1_pdf).
+Import ProofsIW (iw_pdf, iw_valid, diagonal).
+
+Theorem mixture_formula :
+  forall (w : list R) (cs : list ER) (ps : list R), List.Forall (fun t : R => 0 <= t) w -> 0 < sumR w -> List.Forall2 rep cs ps -> exists (lw : list ER) (e : ER), mix_new_wrapped w (length w) = Some lw /\ mix_logpdf lw (map Val cs) = Val e /\ rep e (mixture_pdf w ps).
+Proof. exact ProofsMix.mixture_formula. Qed.
+
+Theorem mixture_support :
+  forall w : list R, List.Forall (fun t : R => 0 <= t) w -> 0 < sumR w -> exists lw : list ER, mix_new_wrapped w (length w) = Some lw /\ mix_logpdf lw (map Val (repeat NInf (length w))) = Val NInf.
+Proof. exact ProofsMix.mixture_support. Qed.
+
+Theorem mixture_posterior :
+  forall (w : list R) (cs : list ER) (ps : list R) (states : list Z), List.Forall (fun t : R => 0 <= t) w -> 0 < sumR w -> List.Forall2 rep cs ps -> length cs = length w -> List.Forall (fun j : Z => (0 <= j < Z.of_nat (length w))%Z) states -> exists lw : list ER, mix_new_wrapped w (length w) = Some lw /\ (0 < dotp w ps -> exists e : ER, mix_posterior lw (map Val cs) states = Val e /\ rep e (sel w ps states / dotp w ps)) /\ (dotp w ps = 0 -> mix_posterior lw (map Val cs) states = Val NaN).
+Proof. exact ProofsMix.mixture_posterior. Qed.
+
+Theorem mix_ctor :
+  forall w : list R, mix_new w = None <-> List.Exists (fun t : R => t < 0) w.
+Proof. exact ProofsMix.mix_ctor. Qed.
+
+Theorem mix_weights_normalised :
+  forall w : list R, 0 < sumR w -> sumR (map (fun t : R => t / sumR w) w) = 1.
+Proof. exact ProofsMix.mix_weights_normalised. Qed.
+
+Theorem mix_all_zero_quirk :
+  mix_new [0; 0] = Some [NaN; NaN].
+Proof. exact ProofsMix.mix_all_zero_quirk. Qed.
+
+Theorem mix_states_oob :
+  forall (lw : list ER) (comps : list res) (f : res -> ER -> res -> res) (j : Z), (j < 0)%Z \/ (Z.of_nat (length lw) <= j)%Z -> mix_states lw comps [j] f = ErrDim.
+Proof. exact ProofsMix.mix_states_oob. Qed.
+
+Theorem skew_formula :
+  forall lerfc erfc : R -> R, (forall y : R, 0 < erfc y) -> (forall y : R, lerfc y = ln (erfc y)) -> forall (xi : list R) (omega : list (list R)) (alpha scale : list R) (kinv : list (list R)) (kdet : R) (x : list R), 0 < kdet -> length omega = length xi -> length alpha = length xi -> length scale = length xi -> length (nth 0 omega []) = length xi -> length x = length xi -> List.Forall (fun s : R => s <> 0) scale -> exists d : sk_d, sk_new xi omega alpha scale kinv kdet = Some d /\ sk_logpdf lerfc d x = Val (Fin (ln (skew_pdf erfc (length xi) kdet (qform kinv x xi) (dot alpha (sk_z x xi scale))))).
+Proof. exact ProofsSkew.skew_formula. Qed.
+
+Theorem skew_scalar_consistency :
+  forall lerfc erfc : R -> R, (forall y : R, 0 < erfc y) -> (forall y : R, lerfc y = ln (erfc y)) -> forall xi w a s x : R, 0 < w -> s <> 0 -> sk_kappa [[w]] [s] = [[s * s * w]] /\ (exists d : sk_d, sk_new [xi] [[w]] [a] [s] [[/ (s * s * w)]] (s * s * w) = Some d /\ sk_logpdf lerfc d [x] = Val (Fin (ln (skew1_pdf erfc xi (sqrt (s * s * w)) (a * ((x - xi) / s)) x)))).
+Proof. exact ProofsSkew.skew_scalar_consistency. Qed.
+
+Theorem skew_ctor_dims :
+  forall (xi : list R) (omega : list (list R)) (alpha scale : list R) (kinv : list (list R)) (kdet : R), length omega <> length xi \/ length omega <> length alpha \/ length omega <> length scale \/ length omega <> length (nth 0 omega []) -> sk_new xi omega alpha scale kinv kdet = None.
+Proof. exact ProofsSkew.skew_ctor_dims. Qed.
+
+Theorem skew_ctor_singular :
+  forall (xi : list R) (omega : list (list R)) (alpha scale : list R) (kinv : list (list R)), sk_new xi omega alpha scale kinv 0 = None.
+Proof. exact ProofsSkew.skew_ctor_singular. Qed.
+
+Theorem skew_dim_guard :
+  forall (lerfc : R -> R) (d : sk_d) (x : list R), (length (vn_mu (sk_n1 d)) < length x)%nat -> List.Forall (fun s : R => s <> 0) (sk_scale d) -> sk_logpdf lerfc d x = ErrDim.
+Proof. exact ProofsSkew.skew_dim_guard. Qed.
+
+Theorem iw_formula :
+  forall (mlgam : nat -> R -> R) (nu : R) (s : list (list R)) (sdet : R) (xinv : list (list R)) (xdet : R), length (nth 0 s []) = length s -> 0 < sdet -> 0 < xdet -> exists d : iw_t, iw_new mlgam nu s sdet = Some d /\ iw_logpdf d xinv xdet = Val (Fin (ln (iw_pdf mlgam nu (length s) sdet xdet (mtrace_had s xinv)))).
+Proof. exact ProofsIW.iw_formula. Qed.
+
+Theorem iw_trace_diagonal :
+  forall s xinv : list (list R), diagonal s -> (forall i : nat, (length (nth i s []) <= length xinv)%nat) -> mtrace_had s xinv = mtrace_mul s xinv.
+Proof. exact ProofsIW.iw_trace_diagonal. Qed.
+
+Theorem iw_formula_refuted :
+  forall mlgam : nat -> R -> R, exists d : iw_t, iw_new mlgam (3 / 2) [[1; -1]; [-1; 2]] 1 = Some d /\ iw_logpdf d [[5; - (1 / 2)]; [- (1 / 2); 1 / 4]] 1 = Val (Fin (ln (iw_pdf mlgam (3 / 2) 2 1 1 (mtrace_mul [[1; -1]; [-1; 2]] [[5; - (1 / 2)]; [- (1 / 2); 1 / 4]])) + 1 / 2)).
+Proof. exact ProofsIW.iw_formula_refuted. Qed.
+
+Theorem iw_ctor :
+  forall (mlgam : nat -> R -> R) (nu : R) (s : list (list R)) (sdet : R), iw_new mlgam nu s sdet = None <-> length s <> length (nth 0 s []) \/ sdet <= 0.
+Proof. exact ProofsIW.iw_ctor. Qed.
+
+Theorem iw_ctor_accepts_small_nu :
+  forall mlgam : nat -> R -> R, exists d : iw_t, iw_new mlgam (1 / 2) [[1; 0]; [0; 1]] 1 = Some d /\ ~ iw_valid (1 / 2) 2 1.
+Proof. exact ProofsIW.iw_ctor_accepts_small_nu. Qed.
+
+Theorem iw_not_pd :
+  forall (d : iw_t) (xinv : list (list R)) (xdet : R), xdet <= 0 -> iw_logpdf d xinv xdet = ErrDim.
+Proof. exact ProofsIW.iw_not_pd. Qed.
+
+Theorem niw_formula :
+  forall (mlgam : nat -> R -> R) (kappa nu : R) (mu : list R) (lambda : list (list R)) (ldet : R) (x : list R) (pinv : list (list R)) (pdet : R) (xinv : list (list R)) (xdet : R), length (nth 0 lambda []) = length lambda -> length mu = length lambda -> length x = length mu -> 0 < ldet -> 0 < pdet -> 0 < xdet -> exists d : niw_t, niw_new mlgam kappa nu mu lambda ldet = Some d /\ niw_logpdf d x pinv pdet xinv xdet = Val (Fin (ln (mvn_pdf (length mu) pdet (qform pinv x mu) * iw_pdf mlgam nu (length lambda) ldet xdet (mtrace_had lambda xinv)))).
+Proof. exact ProofsIW.niw_formula. Qed.
+
+Theorem niw_ctor_dims :
+  forall (mlgam : nat -> R -> R) (kappa nu : R) (mu : list R) (lambda : list (list R)) (ldet : R), length lambda <> length mu -> niw_new mlgam kappa nu mu lambda ldet = None.
+Proof. exact ProofsIW.niw_ctor_dims. Qed.
+
+Theorem niw_clone_panics :
+  forall (d : niw_t) (x : list R) (pinv : list (list R)) (pdet : R) (xinv : list (list R)) (xdet : R), niw_clone_logpdf d x pinv pdet xinv xdet = Panic.
+Proof. exact ProofsIW.niw_clone_panics. Qed.
+
+Example mixture_formula_instance :
+  exists (lw : list ER) (e : ER), mix_new_wrapped [1; 3] 2 = Some lw /\ mix_logpdf lw (map Val [Fin (ln (1 / 2)); NInf]) = Val e /\ rep e (mixture_pdf [1; 3] [1 / 2; 0]).
+Proof.
+  apply (ProofsMix.mixture_formula [1; 3] [Fin (ln (1 / 2)); NInf] [1 / 2; 0]).
+  - repeat constructor; Lra.lra.
+  - cbn; Lra.lra.
+  - constructor; [left; split; [Lra.lra|reflexivity]|constructor; [right; split; reflexivity|constructor]].
+Qed.
+
+(* categorical LogCdf / Cdf = partial sums of the weights, for every number of categories and every real x *)
+From ADV Require C14.ProofsCdf3.
+Import ProofsCdf3 (psum_from).
+Theorem categorical_cdf_partial_sums :
+  forall (theta : list R) (d : list ER) (x : R), cat_new theta = Some d -> exists e : ER, cat_logcdf d x = Val e /\ rep e (psum_from 0 theta x) /\ cat_cdf d x = Val (Fin (psum_from 0 theta x)).
+Proof. exact ProofsCdf3.categorical_cdf_partial_sums. Qed.
+
+Theorem categorical_cdf_monotone :
+  forall (theta : list R) (k0 : nat) (x y : R), List.Forall (fun t : R => 0 <= t) theta -> x <= y -> psum_from k0 theta x <= psum_from k0 theta y.
+Proof. exact ProofsCdf3.psum_from_mono. Qed.
